@@ -1397,6 +1397,85 @@ def _classify_pipeline_diff(diffs, L_of):
 
 _BASE_CACHE = {}
 
+# ---- interface hypotheses monitored on the real pipeline (hypothesis audit G4, G3): every metamorphic run goes through
+#      harness/mon_wrap.py, which evaluates on every real call of `categorize_exon_elongation_subtype` the hypotheses
+#      `ElongWF` / `HasCommon` of mirror_dual_elongSides / …elongationEvents / …checkReadEnds(_type), and on every real
+#      `correct_assigned_read` call the index ranges of the events (`EventInRange.read` of mirror_dual_eventStep =
+#      C14 `WellFormedRegions`); the real code's own warning " + Odd case for exon elongation" (the exact negation of
+#      `HasCommon`) is counted in the logs as a second, independent witness
+MON_WRAP = os.path.join(vlib.HERE, "mon_wrap.py")
+ODD_CASE = "Odd case for exon elongation"
+MON_STATS = {"elong_calls": 0, "corrector_calls": 0, "assigner_calls": 0, "runs": 0}
+
+
+def _monitored_run(P, d, tag, paths, extra):
+    """-> (rc, log, failure or None)"""
+    import mon_wrap
+    mon = os.path.join(d, "mon_%s.jsonl" % tag)
+    out = os.path.join(d, tag)
+    rc, log = P.run_isoquant(out, P.std_args(paths, threads=1, extra=extra), wrapper=MON_WRAP,
+                             env={"MON_FILE": mon, "MON_SET": "elong,c14events,penalty"})
+    calls, viol = mon_wrap.read_monitor(mon)
+    MON_STATS["runs"] += 1
+    MON_STATS["elong_calls"] += calls.get("elong", 0)
+    MON_STATS["corrector_calls"] += calls.get("c14events", 0)
+    MON_STATS["assigner_calls"] += calls.get("penalty", 0)
+    n_odd = log.count(ODD_CASE)
+    lf = os.path.join(out, "isoquant.log")
+    if os.path.exists(lf):
+        with open(lf, errors="replace") as f:
+            n_odd = max(n_odd, f.read().count(ODD_CASE))
+    if viol:
+        r = viol[0]
+        return rc, log, ("hyp_" + str(r.get("kind")), "%s run: interface hypothesis of the C11 mirror theorems violated on the real "
+                         "pipeline (%d record(s)); first: %s" % (tag, len(viol), {k: v for k, v in r.items() if k != "mon"}))
+    if n_odd:
+        return rc, log, ("hyp_no_common_split_exon", "%s run: the real assigner logged %r %d time(s)" % (tag, ODD_CASE, n_odd))
+    return rc, log, None
+
+
+class ElongMonitor:
+    """in-process: `ElongWF` / `HasCommon` on every categorize_exon_elongation_subtype call of the real assigner, and
+    `penalty_score >= 0` for every isoform match of every assignment it returns"""
+
+    def __enter__(self):
+        import mon_wrap
+        vlib.repo_on_path()
+        self.records = []
+        self.calls = 0
+
+        def sink(rec):
+            if rec.get("kind") == "call":
+                self.calls += 1
+            else:
+                self.records.append(rec)
+        self.restore = mon_wrap.install_elong(sink)
+        # G7: no isoform match of an assignment the real assigner returns has a negative penalty (`NonNegFirst`)
+        self.restore_pen = mon_wrap.install_penalty(lambda rec: None if rec.get("kind") == "call" else self.records.append(rec))
+        return self
+
+    def __exit__(self, *a):
+        self.restore_pen()
+        self.restore()
+        return False
+
+
+def elong_hypothesis_case(kw):
+    """the real assigner on one generated gene / read (original, shifted, mirrored): -> (kind, detail) or None"""
+    models = [(t, g, s, _tl(ex)) for t, g, s, ex in kw["models"]]
+    read, polya = _tl(kw["read"]), tuple(kw["polya"])
+    with ElongMonitor() as m:
+        try:
+            assign(models, read, polya)
+            assign(T.mirror_models(kw["L"], models), T.mirror_l(kw["L"], read), T.mirror_polya(kw["L"], polya))
+        except Exception:
+            pass          # crashes are the business of assigner_case
+    if m.records:
+        r = m.records[0]
+        return ("hyp_" + str(r.get("kind")), "interface hypothesis violated by the real assigner (%s monitor): %s"
+                % (r.get("mon"), {k: v for k, v in r.items() if k != "mon"}))
+    return None
+
 
 def pipeline_case(kw, keep=None):
     """one metamorphic pipeline experiment: -> (kind, detail) or None"""
@@ -1417,7 +1496,9 @@ def pipeline_case(kw, keep=None):
             base = _BASE_CACHE[key]
         else:
             p0 = ds.write(os.path.join(d, "in0"))
-            rc, log = P.run_isoquant(os.path.join(d, "out0"), P.std_args(p0, threads=1, extra=extra))
+            rc, log, hyp = _monitored_run(P, d, "out0", p0, extra)
+            if hyp:
+                return hyp
             if rc != 0:
                 return ("pipeline_crash", "original run rc=%s: %s" % (rc, log[-400:]))
             ident = {"pos": lambda c, v: v, "ivl": lambda c, l: list(l), "strand": lambda s: s}
@@ -1435,7 +1516,9 @@ def pipeline_case(kw, keep=None):
             inv = {"pos": lambda c, v: Ls[c] + 1 - v, "ivl": lambda c, l: T.mirror_l(Ls[c], l), "strand": lambda s: fl.get(s, s)}
             mirror = True
         p1 = ds2.write(os.path.join(d, "in1"))
-        rc, log = P.run_isoquant(os.path.join(d, "out1"), P.std_args(p1, threads=1, extra=extra))
+        rc, log, hyp = _monitored_run(P, d, "out1", p1, extra)
+        if hyp:
+            return hyp
         if rc != 0:
             return ("pipeline_crash", "transformed run rc=%s: %s" % (rc, log[-400:]))
         tr = canon_outputs(os.path.join(d, "out1"), "S", inv, mirror)
@@ -1544,9 +1627,18 @@ def oracle(ctx, disagreements, broken):
     _run(ctx, "thread_mirror", dict(THREAD_MIRROR_WITNESS, what="thread_mirror"), lambda i: thread_mirror_case(i))
     # O4 assigner level
     na = 2500 if quick else 50000
-    for kw in REGRESSIONS + gen_assigner_cases(ctx.rng, na):
-        _run(ctx, "assigner", dict(kw, what="assigner"), lambda i: assigner_case(i))
-        n += 1
+    with ElongMonitor() as em:
+        for kw in REGRESSIONS + gen_assigner_cases(ctx.rng, na):
+            n0 = len(em.records)
+            _run(ctx, "assigner", dict(kw, what="assigner"), lambda i: assigner_case(i))
+            n += 1
+            if len(em.records) > n0:
+                r_ = em.records[n0]
+                _fail(ctx, "hyp_" + str(r_.get("kind")), dict(kw, what="elong_hyp"),
+                      "interface hypothesis violated by the real assigner (%s monitor): %s"
+                      % (r_.get("mon"), {k: v for k, v in r_.items() if k != "mon"}))
+    ctx.extra["hypothesis_monitor_inprocess"] = {"what": "ElongWF / HasCommon on every real categorize_exon_elongation_subtype call of O4; penalty_score >= 0 on every assignment",
+                                                 "calls": em.calls, "violations": len(em.records)}
     ctx.extra["oracle_inprocess_cases"] = n
     # witness replays: the asymmetries that are theorems of the model are reproduced on the real code
     C, _, _ = _impl()
@@ -1560,6 +1652,12 @@ def oracle(ctx, disagreements, broken):
         _run(ctx, "pipeline", dict(kw, what="pipeline"), lambda i: pipeline_case(i))
         runs += 1
     ctx.extra["pipeline_metamorphic_runs"] = runs
+    ctx.extra["hypothesis_monitor_pipeline"] = dict(MON_STATS, what="ElongWF / HasCommon per categorize_exon_elongation_subtype call, "
+                                                    "event index ranges per correct_assigned_read call, 'Odd case' warnings in the logs")
+    import mon_wrap
+    if mon_wrap.elong_problems(3, [1, 1, 0], (0, 2), [0, 0, 1], (2, 3)) == [] or mon_wrap.elong_problems(3, [1, 1, 0], (0, 2), [0, 1, 1], (1, 3)) != [] \
+            or [k_ for k_, _ in mon_wrap.elong_problems(3, [1, 1], (0, 2), [0, 1, 1], (1, 3))] != ["elong_not_wf"]:
+        _fail(ctx, "monitor_selftest", {"what": "monitor_selftest"}, "mon_wrap.elong_problems does not separate the two witnesses")
     ctx.extra["pipeline_level"] = "search only (metamorphic runs of the real pipeline); not claimed at proof level"
 
 
@@ -1595,6 +1693,10 @@ def replay(ctx, failure):
             return thread_mirror_case(inp) is not None
         if what == "pipeline":
             return same_kind(pipeline_case(inp), "pipeline")
+        if what == "elong_hyp":
+            return same_kind(elong_hypothesis_case(inp), "hyp")
+        if what == "monitor_selftest":
+            return True
         if "event" in inp:
             return any(i == inp for _, i, _ in oracle_event_tables())
     except Exception:
